@@ -516,7 +516,7 @@ theorem translated_as_listed :
     TaxTotalsSrc.translated = ["RateTotal.matches", "RateTotal.Matches", "RateTotal.clone", "newCategoryTotal",
       "newRateTotal", "matchRoundingPrecision", "CategoryTotal.PreciseAmount", "Total.PreciseSum", "Total.Category",
       "Total.Clone", "Total.Negate", "Total.Merge", "Total.calculateBaseCategoryTotal", "Total.calculateFinalSum",
-      "Total.round", "Total.rateTotalFor"] := by decide
+      "Total.round", "Total.rateTotalFor", "TotalCalculator.calculateBaseRateTotals"] := by decide
 
 theorem struct_Total_as_mapped :
     TaxTotalsSrc.struct_Total = [("Categories", "[]*CategoryTotal"), ("Sum", "num.Amount"), ("sum", "num.Amount")] ∧
@@ -560,9 +560,9 @@ theorem struct_Combo_as_mapped :
     writes through); `&ns`, `&x` taken after the last assignment; no unsigned
     subtraction, no condition-controlled loop -/
 theorem assumptions_as_reviewed :
-    TaxTotalsSrc.nonNilElems = ["[]*CategoryTotal", "[]*RateTotal"] ∧
+    TaxTotalsSrc.nonNilElems = ["[]*CategoryTotal", "[]*Combo", "[]*RateTotal", "[]*taxLine"] ∧
     TaxTotalsSrc.inOutParams = [("Total.calculateBaseCategoryTotal", "ct"), ("Total.calculateFinalSum", "t"),
-      ("Total.round", "t"), ("Total.rateTotalFor", "t")] ∧
+      ("Total.round", "t"), ("Total.rateTotalFor", "t"), ("TotalCalculator.calculateBaseRateTotals", "t")] ∧
     TaxTotalsSrc.ownedLocals = [("RateTotal.clone", "nrt"), ("newCategoryTotal", "ct"), ("newRateTotal", "rt"),
       ("Total.Clone", "nt"), ("Total.Negate", "nt"), ("Total.Merge", "nt")] ∧
     TaxTotalsSrc.elemCursors = [("Total.Negate", "ct := range nt.Categories"), ("Total.Negate", "rt := range ct.Rates"),
@@ -580,7 +580,11 @@ theorem assumptions_as_reviewed :
 /-- the opaque types and their zero values: Go's zero `num.Amount` is `0` with exponent 0, a nil `Extensions` is empty -/
 theorem opaque_types_as_reviewed :
     TaxTotalsSrc.namedTypes = [("Extensions", "map[cbc.Key]cbc.Code", "List (String × String)"),
-      ("cbc.Code", "string", "String"), ("cbc.Key", "string", "String"), ("l10n.TaxCountryCode", "string", "String"),
+      ("Set", "[]*Combo", "List GoblVerif.TaxTotals.Combo"),
+      ("TaxableLine", "interface{GetTaxes() Set; GetTotal() num.Amount}", "GoblVerif.TaxTotals.TaxLine"),
+      ("cal.Date", "struct{invalid type}", "GoblVerif.TaxTotals.CalDate"),
+      ("cbc.Code", "string", "String"), ("cbc.Key", "string", "String"), ("currency.Code", "string", "String"),
+      ("l10n.TaxCountryCode", "string", "String"),
       ("num.Amount", "struct{value int64; exp uint32}", "GoblVerif.Amount"),
       ("num.Percentage", "struct{amount num.Amount}", "GoblVerif.Pct")] ∧
     TaxTotalsSrc.opaqueZeros = [("Extensions", "(default : List (String × String))"), ("num.Amount", "(default : GoblVerif.Amount)")] ∧
